@@ -165,7 +165,7 @@ def judge_mixed_units(case):
 def space(tier, seed):
     q = tier == "quick"
     alph = {
-        "mixture": ["H2O_EtOH", "MeOH_DMC", "S2", "S4"] if q else list(U.ALL_MIXTURES),
+        "mixture": ["H2O_EtOH", "MeOH_DMC", "S2", "S5"] if q else list(U.ALL_MIXTURES),
         "mode": ["vac", ("T", 120.0), ("T", -60.0), ("T", -20.0), ("p", 0.0), ("p", 0.5), ("p", 5.0)] +
                 ([] if q else [("T", -5.0), ("p", 30.0), ("p", 100.0)]),
         "P": [(1e-2, 1e-4), (1e-3, 1e-3), (1e-6, 1.0), (1.0, 1e-6)] if q else
